@@ -12,6 +12,7 @@ a semantics-preserving rewrite of the syntax tree (node positions are kept, so r
                    when the keywords continue the declared parameter order
   K9 new helpers   a private module-level function the reference tree does not have, called once at statement
                    level, is substituted into its caller (parameters bound to fresh locals)
+  K10 formatting   `"a {} b".format(x)` with a constant template and simple fields -> f"a {x} b"
   K3 temp return   `t = E` immediately followed by `return t`, t used nowhere else  ->  `return E`
   K4 local names   consistent renaming of function-local names back to the names they have in the reference table
                    (sa/local_names.json: for every function the sequence of its bindings, each described WITHOUT
@@ -49,7 +50,51 @@ def _has_walrus(e: ast.AST) -> bool:
     return any(isinstance(n, ast.NamedExpr) for n in ast.walk(e))
 
 
+def _format_to_fstring(call: ast.Call) -> Optional[ast.AST]:
+    """`"a {} b {x}".format(u, x=v)` -> f"a {u} b {v}" (constant template, simple fields, no format specs)."""
+    import string
+    f = call.func
+    if not (isinstance(f, ast.Attribute) and f.attr == "format" and isinstance(f.value, ast.Constant) and isinstance(f.value.value, str)):
+        return None
+    if any(isinstance(a, ast.Starred) for a in call.args) or any(k.arg is None for k in call.keywords):
+        return None
+    try:
+        fields = list(string.Formatter().parse(f.value.value))
+    except ValueError:
+        return None
+    kw = {k.arg: k.value for k in call.keywords}
+    parts: list[ast.AST] = []
+    auto = 0
+    for lit, name, spec, conv in fields:
+        if lit:
+            parts.append(ast.Constant(lit))
+        if name is None:
+            continue
+        if spec:
+            return None
+        if name == "":
+            if auto >= len(call.args):
+                return None
+            val = call.args[auto]
+            auto += 1
+        elif name.isdigit():
+            if int(name) >= len(call.args):
+                return None
+            val = call.args[int(name)]
+        elif name.isidentifier() and name in kw:
+            val = kw[name]
+        else:
+            return None
+        parts.append(ast.FormattedValue(value=val, conversion=ord(conv) if conv else -1, format_spec=None))
+    return ast.JoinedStr(values=parts)
+
+
 class _Shape(ast.NodeTransformer):
+    def visit_Call(self, node: ast.Call):
+        self.generic_visit(node)
+        js = _format_to_fstring(node)
+        return ast.copy_location(js, node) if js is not None else node
+
     def visit_UnaryOp(self, node: ast.UnaryOp):
         self.generic_visit(node)
         if isinstance(node.op, ast.Not):
